@@ -348,7 +348,7 @@ def legs(tier):
     from .c03 import fn_rotmap
     out.append(Leg('rotation_map_histories', fn_rotmap, [[N, gi] for N in (1, 2, 3) for gi in range(4 ** N)], chunk=4,
                    bound='all Hermitian generators N<=3: clifford_rotation_map(G) vs rotate_by(G) vs U^dag P U on the whole group; history: mutate the returned map in place, request it again'))
-    tN = (1, 2) if tier == 'quick' else (1, 2, 3)
+    tN = (1, 2, 3)
     out.append(Leg('torch_operators', fn_ops, [[N, gi, 'torch'] for N in tN for gi in range(4 ** N)], chunk=2,
                    bound='torchclifford N in %s: all generators x whole group' % (tN,)))
     out.append(Leg('torch_masks', fn_mask, [[2, 1, 0, 'torch'], [2, 1, 1, 'torch'], [3, 1, 1, 'torch'], [3, 2, 1, 'torch'], [3, 2, 0, 'torch']], chunk=1,
